@@ -34,6 +34,18 @@ theorem scc_total (g : Graph) (hwf : g.wfb = true) : ∃ cs, allScc g = .ok cs :
   obtain ⟨cs, h, _⟩ := allScc_good (g.wf_of_wfb hwf)
   exact ⟨cs, h⟩
 
+/-- for **every** `Graph` value, well formed or not, the recursion budget of the model is never the reason
+for an outcome: the model returns a result or `EdgeNotFound` (the fuel is a proof device, not a limit) -/
+theorem scc_never_diverges (g : Graph) :
+    allScc g ≠ .error .diverges ∧ largestScc g ≠ .error .diverges := by
+  refine ⟨allScc_ne_diverges g, ?_⟩
+  unfold largestScc
+  cases h : allScc g with
+  | error x =>
+    have : x ≠ Err.diverges := fun hx => allScc_ne_diverges g (by rw [h, hx])
+    simp [this]
+  | ok cs => simp
+
 /-- all four clauses at once -/
 theorem scc_correct (g : Graph) (hwf : g.wfb = true) (cs : List (List Nat)) (h : allScc g = .ok cs) :
     IsSccPartition g cs := by
